@@ -65,6 +65,7 @@ pub fn exec(db: &dyn IndexDatabase, range: FileRange) -> Option<Vec<InlayHint>> 
             _ => {}
         }
     }
+    hints.retain(|hint| range.range.contains_inclusive(hint.position));
     Some(hints)
 }
 
